@@ -82,6 +82,75 @@ impl Report {
             self.inconclusive.push(why.into());
         }
     }
+    /// Merge a report previously written with `to_json` (e.g. by a child process).
+    pub fn absorb_json(&mut self, j: &Json) {
+        self.evaluations += j.get("evaluations").and_then(|x| x.as_u64()).unwrap_or(0);
+        if let Some(a) = j.get("nontrivial").and_then(|x| x.as_arr()) {
+            for h in a {
+                if let Some(s) = h.as_str() {
+                    if let Ok(v) = u64::from_str_radix(s, 16) {
+                        self.nontrivial(v);
+                    }
+                }
+            }
+        }
+        if let Some(Json::Obj(m)) = j.get("violation_counts") {
+            for (k, v) in m {
+                *self.violation_counts.entry(k.clone()).or_insert(0) += v.as_u64().unwrap_or(0);
+            }
+        }
+        if let Some(a) = j.get("violations").and_then(|x| x.as_arr()) {
+            for v in a {
+                let sig = v.get("sig").and_then(|x| x.as_str()).unwrap_or("").to_string();
+                let have = self.violations.iter().filter(|x| x.sig == sig).count();
+                if have < 3 {
+                    self.violations.push(Violation {
+                        sig,
+                        what: v.get("what").and_then(|x| x.as_str()).unwrap_or("").to_string(),
+                        replay: v.get("replay").cloned().unwrap_or(Json::Null),
+                    });
+                }
+            }
+        }
+        if let Some(a) = j.get("samples").and_then(|x| x.as_arr()) {
+            for s in a {
+                self.sample(s.clone());
+            }
+        }
+        if let Some(Json::Obj(m)) = j.get("stats") {
+            for (k, v) in m {
+                if let Json::Int(i) = v {
+                    self.stat(k, *i);
+                }
+            }
+        }
+        if let Some(Json::Obj(m)) = j.get("maxstats") {
+            for (k, v) in m {
+                if let Json::Int(i) = v {
+                    self.maxstat(k, *i);
+                }
+            }
+        }
+        if let Some(Json::Obj(m)) = j.get("sets") {
+            for (k, v) in m {
+                if let Some(a) = v.as_arr() {
+                    for x in a {
+                        if let Some(s) = x.as_str() {
+                            self.set(k, s);
+                        }
+                    }
+                }
+            }
+        }
+        if let Some(a) = j.get("inconclusive").and_then(|x| x.as_arr()) {
+            for x in a {
+                if let Some(s) = x.as_str() {
+                    self.inconclusive(s);
+                }
+            }
+        }
+    }
+
     pub fn to_json(&self) -> Json {
         let mut viol = Json::arr();
         for v in &self.violations {
